@@ -605,11 +605,18 @@ async def drive(scen, sched_seed, stop, recorder=None):
         if out.stopped is None and not ended_by_itself:
             # no stop by the consumer (single result, subscription, or the run broke off): the world goes
             # on, the resolvers that are still in flight answer (work the library settles in the background
-            # on a failure path is by design not cancelled but awaited)
-            for _ in range(200):
+            # on a failure path is by design not cancelled but awaited); background work may ask further
+            # resolvers only after a while, so "nothing to release" must hold for several drains in a row
+            idle = 0
+            for _ in range(400):
                 g = world.next_gate()
                 if g is None:
-                    break
+                    idle += 1
+                    if idle >= 3:
+                        break
+                    await _settle(DRAIN)
+                    continue
+                idle = 0
                 world.release(g)
                 await _settle()
         await _settle(DRAIN)
@@ -1581,6 +1588,147 @@ def random_subscription(rng, i):
                 stream_raises=ra is not None)
 
 
+
+# --------------------------------------------------------------------------- abort at EVERY loop iteration
+
+
+def tick_sweep(ck, thorough):
+    """The stop points of the main sweep are quiescent points.  Here the abort signal fires after exactly k loop
+    iterations (k = 0..), i.e. also in the middle of hand-offs (producer just resumed, __anext__ just issued, item
+    being completed), for a streamed list over an async generator / class-based source, lazy and early."""
+    import itertools
+    from graphql import parse
+    from graphql.execution import ExecutionHooks, experimental_execute_incrementally
+    from graphql.pyutils import AbortController
+    schema = _schema()
+
+    async def one(kind, early, k, n0, hang_at, slow_name):
+        st = {"started": 0, "closed": 0, "final": 0, "hook": 0, "exhausted": False}
+        never = asyncio.Event()
+        me = asyncio.current_task()
+
+        async def name(_i):
+            await asyncio.sleep(0)
+            await asyncio.sleep(0)
+            return "n"
+
+        def mk(i):
+            return {"id": i, "name": name if slow_name else "n"}
+
+        async def agen():
+            st["started"] += 1
+            try:
+                for i in range(5):
+                    if i == hang_at:
+                        await never.wait()
+                    await asyncio.sleep(0)
+                    yield mk(i)
+                st["exhausted"] = True
+            finally:
+                st["final"] += 1
+
+        class It:
+            def __init__(self):
+                self.i = 0
+
+            def __aiter__(self):
+                return self
+
+            async def __anext__(self):
+                st["started"] += 1
+                if self.i == hang_at:
+                    await never.wait()
+                await asyncio.sleep(0)
+                self.i += 1
+                if self.i > 5:
+                    st["exhausted"] = True
+                    raise StopAsyncIteration
+                return mk(self.i)
+
+            async def aclose(self):
+                st["closed"] += 1
+
+        ctrl = AbortController()
+        res = experimental_execute_incrementally(
+            schema, parse("{ items @stream(initialCount: %d) { id name } }" % n0),
+            {"items": (lambda _i: agen()) if kind == "agen" else (lambda _i: It())},
+            enable_early_execution=early, abort_signal=ctrl.signal,
+            hooks=ExecutionHooks(async_work_finished=lambda _i: st.__setitem__("hook", st["hook"] + 1)))
+
+        async def consume():
+            r = res
+            if hasattr(r, "__await__"):
+                try:
+                    r = await r
+                except Exception as e:  # noqa: BLE001
+                    r = getattr(e, "aborted_result", None)
+                    if r is None:
+                        return
+                    if hasattr(r, "__await__"):
+                        r = await r
+            sub = getattr(r, "subsequent_results", None)
+            if sub is not None:
+                async for _ in sub:   # after an abort: the documented protocol (asking raises the reason)
+                    pass
+
+        t = asyncio.ensure_future(consume())
+        for _ in range(k):
+            await asyncio.sleep(0)
+        ctrl.abort(RuntimeError("stop"))
+        bad = []
+        try:
+            await asyncio.wait_for(t, BUDGET)
+        except asyncio.TimeoutError:
+            bad.append("consumer not released")
+        except Exception:  # noqa: BLE001
+            pass
+        await _settle(DRAIN + 20)
+        left = [_coro_name(x) for x in asyncio.all_tasks() if x is not me and not x.done()]
+        closes = st["final"] if kind == "agen" else st["closed"]
+        if st["started"] and not st["exhausted"] and closes != 1:
+            bad.append(f"started source closed {closes} times")
+        if closes > 1:
+            bad.append(f"source closed {closes} times")
+        if left and not bad:
+            bad.append(f"tasks left pending: {sorted(left)[:3]}")
+        if st["hook"] != 1 and not bad:
+            bad.append(f"hook fired {st['hook']} times")
+        for x in asyncio.all_tasks():
+            if x is not me and not x.done():
+                x.cancel()
+        await _settle(4)
+        return bad
+
+    ks = range(0, 40 if thorough else 28)
+    combos = list(itertools.product(("agen", "aiter"), (False, True), (0, 1, 2) if thorough else (0, 1),
+                                    (1, 3, 9) if thorough else (1, 3), (False, True) if thorough else (False,)))
+    n = 0
+    for kind, early, n0, hang_at, slow in combos:
+        for k in ks:
+            loop = asyncio.new_event_loop()
+            loop.set_exception_handler(lambda _l, _c: None)
+            try:
+                with warnings.catch_warnings():
+                    warnings.simplefilter("ignore")
+                    bad = loop.run_until_complete(asyncio.wait_for(one(kind, early, k, n0, hang_at, slow), 30))
+            except Exception as e:  # noqa: BLE001
+                bad = [f"driver: {type(e).__name__}"]
+            finally:
+                try:
+                    loop.run_until_complete(loop.shutdown_asyncgens())
+                except Exception:  # noqa: BLE001
+                    pass
+                loop.close()
+            n += 1
+            ck.note_case(("tick", kind, early, n0, hang_at, slow, k), nontrivial=True)
+            if bad:
+                ck.violation(f"abort-at-loop-iteration:{kind}|early={int(early)}|initialCount={n0}|hang_at={hang_at}",
+                             f"abort signal fired after {k} loop iterations on a streamed list over a {kind} source "
+                             f"(early={early}, initialCount={n0}, source hangs at item {hang_at}): {'; '.join(bad)}",
+                             {"relation": "leak predicates at a non-quiescent stop point", "kind": kind, "early": early,
+                              "initial_count": n0, "hang_at": hang_at, "slow_item_field": slow, "k": k})
+    ck.count("abort_at_loop_iteration_runs", n)
+
 # --------------------------------------------------------------------------- the check
 
 
@@ -1738,6 +1886,7 @@ def run(tier):
                             continue       # quick: abort stops are run once (the signal is created anyway)
                         one(sc, seed, stop)
     ck.count("real_runs", nruns)
+    tick_sweep(ck, thorough)
     ck.exhaustive = False
 
     # ---------------- (T) acceptance of the recorded traces
@@ -1783,7 +1932,7 @@ def run(tier):
     return ck.finish()
 
 
-REPRO_KEYS = {"F1": K_UNSTARTED, "F3": K_ORPHAN, "F4": K_TWICE, "F5": K_CANCELLED_LIST, "F6": K_HOOK_EARLY, "F7": K_ABORT_HANG}
+REPRO_KEYS = {"F1": K_UNSTARTED, "F3": K_ORPHAN, "F4": K_TWICE, "F5": K_CANCELLED_LIST, "F6": K_HOOK_EARLY, "F7": K_ABORT_HANG, "F8": K_UNREACHABLE, "F9": K_UNREACHABLE}
 
 
 def run_repro_scripts(ck):
